@@ -13,7 +13,8 @@
    arbitrary functions of the command, the session's own selection and the store OF THE SESSION'S USER — every handler
    reaches data only through s.state, which backend.GetState creates for the authorised user (facts
    state_created_for_authorised_user, per_user_store_and_database).
-   No TLS configuration: STARTTLS ends the connection without an answer.  No proofs in this file. *)
+   No TLS configuration: STARTTLS is answered NO and nothing happens, or — if handleStartTLS hands the NO back as an error —
+   the connection ends without an answer (fact starttls_without_tls_answers_no).  No proofs in this file. *)
 From Coq Require Import List String NArith Bool.
 From Gluon Require Import Gen.FactsCmdClass.
 Import ListNotations.
@@ -72,7 +73,7 @@ Inductive decision :=
 | DAnyNoUser                         (* any-state command before LOGIN: OK, touches no user data *)
 | DLoginAttempt                      (* backend.GetState is called *)
 | DLogout                            (* BYE, OK, connection ends *)
-| DDrop.                             (* connection ends without an answer (STARTTLS without TLS configuration) *)
+| DDrop.                             (* connection ends without an answer *)
 
 Definition jail_cmp_ok : bool := (String.eqb jail_comparison "==" || String.eqb jail_comparison ">=")%bool.
 
@@ -81,7 +82,7 @@ Definition gate (st : pstate) (c : cmdk) : decision :=
   | PClosed => DRefuse RNone
   | _ =>
     let n := go_name c in
-    if mem n apart_reader then DDrop
+    if mem n apart_reader then (if starttls_without_tls_answers_no then DRefuse RNo else DDrop)
     else if mem n apart_serve then
       match c with
       | CLogout => DLogout
